@@ -79,6 +79,8 @@ type Celsius float64
 type F32 float32
 type ID int
 type CAlias = Celsius
+type NB bool
+type two struct{ a, b int }
 
 var cx, cy Celsius
 var hx32, hy32 F32
@@ -377,8 +379,12 @@ func shapes() []shape {
 				return fmt.Sprint(i)
 			}
 			k := g.r.Intn(3)
+			tag2 := tag
+			if tag != "s" && g.r.Chance(35) {
+				tag2 = g.pick("x", "y", "y+1") // a later disjunct about something else: must not be merged
+			}
 			return fmt.Sprintf("r := 0\n\tswitch {\n\tcase %s == %s || %s == (%s):\n\t\tr = ti(1, 10)\n\tcase %s == %s:\n\t\tr = 20\n\tdefault:\n\t\tr = 30\n\t}\n\treturn r",
-				tag, lit(k), tag, lit(k+1), tag, lit(k+2+g.r.Intn(2)))
+				tag, lit(k), tag2, lit(k+1), tag, lit(k+2+g.r.Intn(2)))
 		}},
 		{"QF1003", func(g *gen) string {
 			tag := g.pick("x", "y", "x-y")
@@ -387,8 +393,12 @@ func shapes() []shape {
 			if g.r.Bool() {
 				els = "\n\t} else {\n\t\tr = 30\n\t}"
 			}
+			tag2 := tag
+			if g.r.Chance(35) {
+				tag2 = g.pick("x", "y", "y-x")
+			}
 			return fmt.Sprintf("r := 0\n\tif %s == %d || %s == %d {\n\t\tr = ti(1, 10)\n\t} else if %s == %d {\n\t\tr = 20%s\n\treturn r",
-				tag, k, tag, k+1, tag, k+2+g.r.Intn(2), els)
+				tag, k, tag2, k+1, tag, k+2+g.r.Intn(2), els)
 		}},
 		{"S1005", func(g *gen) string {
 			return fmt.Sprintf("ch := make(chan int, 4)\n\tch <- ti(1, x)\n\tch <- 2\n\tch <- 3\n\tclose(ch)\n\t_ = <-ch\n\tv, _ := <-ch\n\tn := 0\n\tfor _ = range []int{1, 2, %d} {\n\t\tn++\n\t}\n\tfor i, _ := range []int{5, 6} {\n\t\tn += i\n\t}\n\tfor _, _ = range ts(2, s) {\n\t\tn++\n\t}\n\treturn fmt.Sprint(v, n)", g.r.Intn(9))
@@ -482,6 +492,15 @@ func shapes() []shape {
 		{"QF1008", func(g *gen) string {
 			return "v := outer{Mid{inner{ti(1, x), y}}, 3}\n\tv.Mid.inner.f++\n\treturn v.Mid.inner.f + v.Mid.g + v.inner.g"
 		}},
+		{"QF1011", func(g *gen) string {
+			return g.pick(
+				"var a int = x + ti(1, y)\n\treturn fmt.Sprintf(\"%T %v\", a, a)",
+				"var m int32 = 1 << uint(x&3)\n\treturn fmt.Sprintf(\"%T %v\", m, m)",        // untyped constant shifted by a variable
+				"var b NB = x < y\n\treturn fmt.Sprintf(\"%T %v\", b, b)",                    // untyped bool to a named bool type
+				"var f float64 = 3 / 2\n\treturn fmt.Sprintf(\"%T %v\", f, f/4)",
+				"var c Celsius = 2\n\tvar d int = len(s)\n\treturn fmt.Sprintf(\"%T %v %T\", c, c, d)",
+				"var u uint8 = 200 + 1<<uint(x&1)\n\tu += 100\n\treturn fmt.Sprintf(\"%T %v\", u, u)")
+		}},
 		{"QF1012", func(g *gen) string {
 			call := g.pick(`fmt.Sprintf("%d-%s", ti(1, x), s)`, `fmt.Sprint(ti(1, x), s)`, `fmt.Sprintln(ts(1, s))`)
 			switch g.r.Intn(5) {
@@ -535,10 +554,17 @@ var directed = map[string][]string{
 		"v := true\n\tif tb(1, p) && fx < fy {\n\t\tv = false\n\t}\n\treturn v",
 	},
 	"QF1002": {
+		"r := 0\n\tswitch {\n\tcase x == 9 || y == 5:\n\t\tr = 1\n\tcase x == 3:\n\t\tr = 2\n\t}\n\treturn r",
+		"v := two{x, y}\n\tr := 0\n\tswitch {\n\tcase v.a == 9 || v.b == 5:\n\t\tr = 1\n\tcase v.a == 3, v.b == 13:\n\t\tr = 2\n\t}\n\treturn r",
+		"r := 0\n\tswitch {\n\tcase x == 9 || 4 == x:\n\t\tr = 1\n\tcase x == 3:\n\t\tr = 2\n\t}\n\treturn r",
 		"v := pairA{x, \"a\"}\n\tr := 0\n\tswitch {\n\tcase (pairA{1, \"a\"}) == v:\n\t\tr = 1\n\tcase (pairA{2, \"a\"}) == v:\n\t\tr = 2\n\t}\n\treturn r",
 		"r := 0\n\tswitch {\n\tcase x == 1 || x == 1:\n\t\tr = 1\n\tcase x == 3:\n\t\tr = 2\n\t}\n\treturn r", // duplicate constants
 	},
 	"QF1003": {
+		"r := 0\n\tif x == 9 || y == 5 {\n\t\tr = 1\n\t} else if x == 3 {\n\t\tr = 2\n\t}\n\treturn r",                         // later disjunct compares a different variable
+		"v := two{x, y}\n\tr := 0\n\tif v.a == 9 || v.b == 5 {\n\t\tr = 1\n\t} else if v.a == 3 {\n\t\tr = 2\n\t}\n\treturn r",      // a different field of the same struct
+		"r := 0\n\tif x == 9 || 3 == x {\n\t\tr = 1\n\t} else if x == 4 {\n\t\tr = 2\n\t}\n\treturn r",                         // the same variable on the right side
+		"r := 0\n\tif x == 3 {\n\t\tr = 1\n\t} else if x == 9 || y == 1 || x == 2 {\n\t\tr = 2\n\t} else {\n\t\tr = 3\n\t}\n\treturn r",
 		"n := 0\n\tfor i := 0; i < 3; i++ {\n\t\tif x == 1 {\n\t\t\tn += 1\n\t\t} else if x == 2 {\n\t\t\tn += 2\n\t\t} else {\n\t\t\tbreak\n\t\t}\n\t\tn += 10\n\t}\n\treturn n", // break in the final else, inside a loop
 		"n := 0\n\tfor i := 0; i < 3; i++ {\n\t\tif x == 1 {\n\t\t\tn += 1\n\t\t} else if x == 2 {\n\t\t\tn += 2\n\t\t} else {\n\t\t\tcontinue\n\t\t}\n\t\tn += 10\n\t}\n\treturn n",
 		"n := 0\n\tswitch {\n\tcase y > 0:\n\t\tif x == 1 {\n\t\t\tn += 1\n\t\t} else if x == 2 {\n\t\t\tn += 2\n\t\t} else {\n\t\t\tbreak\n\t\t}\n\t\tn += 10\n\t}\n\treturn n", // break inside a switch case
@@ -565,6 +591,10 @@ var directed = map[string][]string{
 	},
 	"S1028": {
 		"return errors.New(fmt.Sprintf(\"%d %v\", xsA...)).Error()",
+	},
+	"QF1011": {
+		"var m int32 = 1 << uint(x&3)\n\tvar b NB = x < y || y < 3\n\tvar a int = x * 2\n\treturn fmt.Sprintf(\"%T %v %T %v %T\", m, m, b, b, a)",
+		"var f float64 = 3 / 2\n\tvar u uint8 = 250 + 1<<uint(x&1)\n\tu += 10\n\treturn fmt.Sprintf(\"%T %v %T %v\", f, f/4, u, u)",
 	},
 	"QF1012": {
 		"buf := &bytes.Buffer{}\n\tbuf.WriteString(fmt.Sprintf(\"%d %v\", xsA...))\n\tbuf.Write([]byte(fmt.Sprint(xsA...)))\n\treturn buf.String()",
@@ -643,6 +673,11 @@ func runBehave(work string, rnd *hx.Rand, n int, only string, keep bool) {
 		for k, body := range directed[sh.name] {
 			fn := fmt.Sprintf("f%s_d%d", sh.name, k)
 			text := "func " + fn + sig + " {\n\t" + body + "\n}\n\n"
+			if !instanceOK(header, text) {
+				stat("behave_instances_dropped", 1)
+				note("directed instance is not valid Go (dropped): %s", text)
+				continue
+			}
 			insts = append(insts, instance{fn, sh.name + "/directed", text})
 			src.WriteString(text)
 		}
